@@ -20,6 +20,7 @@ import Golib.Proof.C17Int64
 import Golib.Model.C17Large
 import Golib.Proof.C17CaseB
 import Golib.Proof.C17Fast
+import Golib.Proof.C17Trans
 
 namespace Golib.C17
 open Golib.Utf8
@@ -346,5 +347,43 @@ example : isSnakeIdent [102, 111, 111, 95] = false ∧
     (snakeToCamel [102, 111, 111, 95] false).bind camelToSnake ≠ some [102, 111, 111, 95] := by decide
 example : isSnakeIdent [102, 111, 111, 95, 49] = false ∧
     (snakeToCamel [102, 111, 111, 95, 49] false).bind camelToSnake ≠ some [102, 111, 111, 95, 49] := by decide
+
+/-! ### The regenerated tie (`go2lean`, wave 9): `Golib/Gen/TransC17.lean` is translated from
+`strz/strs.go` on every run; `unicode/utf8` and the rune conversions of the translation are the
+functions of `Golib.Utf8` (through `GoSem`), strings are `List (BitVec 8)`, abstraction
+`GoSem.strNat = List.map BitVec.toNat` (inverse `GoSem.natStr`). -/
+
+/-- TIE: the translated `Len` is the model `len` (the rune count of `Golib.Utf8`) on EVERY byte string. -/
+theorem c17_trans_Len (s : List (BitVec 8)) :
+    Golib.Gen.Trans.C17.Len s = .ok ((len (Golib.GoSem.strNat s) : Nat) : Int) :=
+  Tie.trans_Len s
+
+/-- Non-vacuity: `aé你😀` has 4 runes, five invalid bytes count 5. -/
+example : Golib.Gen.Trans.C17.Len [0x61#8, 0xc3#8, 0xa9#8, 0xe4#8, 0xbd#8, 0xa0#8, 0xf0#8, 0x9f#8, 0x98#8, 0x80#8] = .ok 4 ∧
+    Golib.Gen.Trans.C17.Len [0xff#8, 0xff#8, 0xff#8, 0xff#8, 0xff#8] = .ok 5 := by
+  constructor <;> decide +kernel
+
+/-- TIE: for EVERY byte string (valid UTF-8 or not) and ALL integers `start`, `length`, the translated
+`Sub` neither panics nor runs out of fuel, the model `sub` does not panic, and the two return the
+same bytes.  (`c17_sub` … are about `sub`; `c17_sub_int64_exact` carries the unbounded `Int` of both
+sides to Go's 64-bit `int`.) -/
+theorem c17_trans_Sub (s : List (BitVec 8)) (start length : Int) :
+    ∃ r, sub (Golib.GoSem.strNat s) start length = some r ∧
+      Golib.Gen.Trans.C17.Sub s start length = .ok (Golib.GoSem.natStr r) :=
+  Tie.trans_Sub s start length
+
+/-- Non-vacuity: `Sub("aé你😀B", 1, 2) = "é你"`, `Sub(…, 3, -1) = "😀B"`, past the end `""`. -/
+example : Golib.Gen.Trans.C17.Sub [0x61#8, 0xc3#8, 0xa9#8, 0xe4#8, 0xbd#8, 0xa0#8, 0xf0#8, 0x9f#8, 0x98#8, 0x80#8, 0x42#8] 1 2
+      = .ok [0xc3#8, 0xa9#8, 0xe4#8, 0xbd#8, 0xa0#8] ∧
+    Golib.Gen.Trans.C17.Sub [0x61#8, 0xc3#8, 0xa9#8, 0xe4#8, 0xbd#8, 0xa0#8, 0xf0#8, 0x9f#8, 0x98#8, 0x80#8, 0x42#8] 3 (-1)
+      = .ok [0xf0#8, 0x9f#8, 0x98#8, 0x80#8, 0x42#8] ∧
+    Golib.Gen.Trans.C17.Sub [0x61#8, 0xff#8] 7 1 = .ok [] := by
+  refine ⟨?_, ?_, ?_⟩ <;> decide +kernel
+
+/-- The property clause directly on the generated definition: `Sub` never panics. -/
+theorem c17_trans_Sub_total (s : List (BitVec 8)) (start length : Int) :
+    ∃ r, Golib.Gen.Trans.C17.Sub s start length = .ok r := by
+  obtain ⟨r, _, h⟩ := c17_trans_Sub s start length
+  exact ⟨_, h⟩
 
 end Golib.C17
